@@ -126,13 +126,14 @@ CHECKS = {
     "C04": dict(
         level="model_checking",
         clauses=GEN_CLAUSES_SPEC,
-        phases=dict(quick=[dict(profile="agg3"), dict(profile="gsub4")], thorough=[dict(profile="agg3"), dict(profile="gsub4"), dict(profile="wins4")]),
+        phases=dict(quick=[dict(kind="argspace", verbs=["agg"], amax=2), dict(profile="agg3"), dict(profile="gsub4")],
+                    thorough=[dict(kind="argspace", verbs=["agg"], amax=3), dict(profile="agg3"), dict(profile="gsub4"), dict(profile="wins4")]),
     ),
     "C05": dict(
         level="model_checking",
         clauses=GEN_CLAUSES_SPEC,
-        phases=dict(quick=[dict(profile="win2"), dict(profile="wins3")],
-                    thorough=[dict(profile="win2"), dict(profile="win3"), dict(profile="wins4")]),
+        phases=dict(quick=[dict(kind="argspace", verbs=["win"], wmax=3), dict(profile="win2"), dict(profile="wins3")],
+                    thorough=[dict(kind="argspace", verbs=["win"], wmax=4), dict(profile="win2"), dict(profile="win3"), dict(profile="wins4")]),
     ),
     "C09": dict(
         level="model_checking",
